@@ -164,18 +164,18 @@ theorem split_every_irrelevant_cohorts (R : Resolved) (s : Shape) (c : Call) (k 
 
 /-- **labels unknown until compute time** (`_grouped_combine` at every node of the tree; the discovered labels are
     part of the result): any two chunkings and `split_every` values give the same `(labels, values)`.
-    `presentKeys keys ≠ []`: at least one label is not missing (otherwise see `C12`). -/
+    `H_allmissing`: every label missing together with `min_count > 0` and no fill value is excluded (see `C12` §4). -/
 theorem runUnknown_chunking_tree_irrelevant (R : Resolved) (s : Shape) (c₁ c₂ : Call) (chunks₁ chunks₂ : List Nat)
     (keys : List Key) (vals : List Val)
     (hR₁ : c₁.R = R) (heng₁ : c₁.eng = .npg) (hR₂ : c₂.R = R) (heng₂ : c₂.eng = .npg) (hsort : c₁.sort = c₂.sort)
     (hshape : R.shape? = some s)
-    (hlen : keys.length = vals.length) (hpres : presentKeys keys ≠ [])
-    (H_minmax : HMinMax R s)
+    (hlen : keys.length = vals.length)
+    (H_minmax : HMinMax R s) (H_allmissing : Grp.HAllMissing R keys)
     (hchunks₁ : chunks₁ ≠ []) (hsum₁ : chunks₁.sum = keys.length)
     (hchunks₂ : chunks₂ ≠ []) (hsum₂ : chunks₂.sum = keys.length) :
     runUnknown c₁ chunks₁ keys vals = runUnknown c₂ chunks₂ keys vals :=
   Grp.runUnknown_chunking_tree_irrelevant R s c₁ c₂ chunks₁ chunks₂ keys vals hR₁ heng₁ hR₂ heng₂ hsort hshape hlen
-    hpres H_minmax hchunks₁ hsum₁ hchunks₂ hsum₂
+    H_minmax H_allmissing hchunks₁ hsum₁ hchunks₂ hsum₂
 
 /-- **arg-reductions**: "leftmost best (value, global index) pair" is associative – picking per block and then among
     the blocks' winners (in block order) is picking once over the concatenation; this is what makes every tree of
